@@ -84,9 +84,22 @@ var dirName = [2]string{"read", "write"}
 
 type cfg struct {
 	mode ekit.Mode
-	ops  []op
-	p    int
+	// origin of the connection: "" = built around a connected descriptor and added with AddConn
+	// (as an accepted connection is); dial = Engine.DialAsync, connect in progress, then accepted
+	// by the network; dialT = Engine.DialAsyncTimeout(7 s), connect in progress, then accepted
+	// (the connect clears the dial timeout, which lives in the write-timer slot); dialTimm =
+	// DialAsyncTimeout whose connect succeeds synchronously (no dial timer); dialTfired =
+	// DialAsyncTimeout whose timeout fires first: the operations run on the connection the
+	// failed dial handed to its callback
+	origin string
+	ops    []op
+	p      int
 }
+
+// dialTimeout differs from every deadline the operation lists can produce together with the
+// instant they are set at (5, 9, 3+5, 3+9 ...), so that a dial timer that survives the connect is
+// recognisable by its time alone.
+const dialTimeout = 7 * time.Second
 
 // maxWB is MaxWriteBufferSize in the scenarios that contain an overflowing Write (O).
 const maxWB = 4
@@ -99,7 +112,12 @@ func opsString(ops []op) string {
 	return strings.Join(s, ",")
 }
 
-func (c cfg) name() string { return fmt.Sprintf("core %s ops=%s", c.mode, opsString(c.ops)) }
+func (c cfg) name() string {
+	if c.origin != "" {
+		return fmt.Sprintf("core %s origin=%s ops=%s", c.mode, c.origin, opsString(c.ops))
+	}
+	return fmt.Sprintf("core %s ops=%s", c.mode, opsString(c.ops))
+}
 
 // ---------------------------------------------------------------------------------------------
 // reading the virtual timers of the connection (oracle only)
@@ -195,6 +213,10 @@ type world struct {
 	seq  int
 	conn *nbio.Conn
 	peer *vsys.Peer
+
+	origin   string
+	dialDone bool      // the asynchronous dial reported success: from here on no close may report the dial timeout
+	dialAt   time.Time // virtual time of that report
 
 	dl       [2]deadline
 	inflight *op
@@ -322,6 +344,8 @@ func errClass(err error) string {
 		return "wtimeout"
 	case errors.Is(err, nbio.ErrOverflow):
 		return "overflow"
+	case errors.Is(err, nbio.ErrDialTimeout):
+		return "dialtimeout"
 	case errors.Is(err, vsys.EPIPE), errors.Is(err, vsys.ECONNRESET):
 		return "ioerr"
 	case errors.Is(err, io.EOF):
@@ -357,6 +381,24 @@ func (w *world) onClose(c *nbio.Conn, err error) {
 			w.failf("unexpected-close|the connection was closed with %v at %s; nothing in this scenario can cause that", err, rel(w.closeAt))
 		}
 		w.counters["error_closes"]++
+	case "dialtimeout":
+		if !w.dialDone {
+			// the dial timeout fired while the connect was still in progress (origin dialTfired); the
+			// callback and the number of notifications are C03's subject
+			w.counters["dial_timeout_closes"]++
+			break
+		}
+		// the dial completed long ago: whatever deadline expired, "dial timeout" is not the
+		// corresponding error
+		want, detail := "none", "no deadline timer of the connection had fired"
+		for dir := 0; dir < 2; dir++ {
+			if n := len(w.fires[dir]); n > 0 {
+				f := w.fires[dir][n-1]
+				want = dirName[dir]
+				detail = fmt.Sprintf("what had expired was its %s deadline (the %s timer fired at %s, %s; %s deadline in the model: %s)", dirName[dir], dirName[dir], rel(f.at), f.verdict, dirName[dir], w.dlString(dir))
+			}
+		}
+		w.failf("wrong-timeout-error got=dial want=%s|the connection (origin %s, dial reported success at %s) was closed with %q at %s: %s", want, w.origin, rel(w.dialAt), err, rel(w.closeAt), detail)
 	default:
 		w.failf("unexpected-close|the connection was closed with %v at %s; nothing in this scenario can cause that", err, rel(w.closeAt))
 	}
@@ -406,6 +448,8 @@ func closeVia(err error) string {
 		return "Close"
 	case "rtimeout", "wtimeout":
 		return "timeout"
+	case "dialtimeout":
+		return "dial-timeout"
 	default:
 		return "error-" + c
 	}
@@ -645,6 +689,111 @@ func (w *world) end(r *opRun) {
 	}
 }
 
+// dial obtains the connection through an asynchronous dial on the simulated kernel. The network
+// (a thread of its own, started before the call) completes the three-way handshake as soon as a
+// connect is in progress, so the completion - the poller's EPOLLOUT, the internal clearing of the
+// dial timeout, the user callback - is interleaved with the rest of DialAsyncTimeout wherever
+// the preemption bound allows. It returns false when the execution ends here.
+func (w *world) dial(g *nbio.Engine) bool {
+	vsys.DialSndCap = K
+	calls := 0
+	var cbErr error
+	var cbConn *nbio.Conn
+	cb := func(cc *nbio.Conn, err error) {
+		w.tick()
+		calls++
+		cbErr, cbConn = err, cc
+	}
+	switch w.origin {
+	case "dialTimm":
+		vsys.SetDialPlan(vsys.DialPlan{Immediate: true})
+	case "dial", "dialT":
+		vsched.GoNamed("network", func() {
+			vsched.Block("network: no connect in progress", func() bool { return len(vsys.Dials()) > 0 })
+			w.peer = vsys.Dials()[0].Accept()
+			w.tick()
+		})
+	}
+	var err error
+	if w.origin == "dial" {
+		err = g.DialAsync("tcp", "127.0.0.1:80", cb)
+	} else {
+		err = g.DialAsyncTimeout("tcp", "127.0.0.1:80", dialTimeout, cb)
+	}
+	if err != nil {
+		vsched.Fail("harness|%s returned %v", w.origin, err)
+		return false
+	}
+	// ---- atomic until WaitIdle
+	w.tick()
+	armedAtReturn, reportedAtReturn := vtime.Armed(), calls > 0
+	vsched.WaitIdle()
+	w.tick()
+	if w.origin == "dialTfired" {
+		// nobody answers the connect: the dial timeout is the only thing that can happen
+		if calls != 0 || vtime.Armed() != 1 {
+			w.failf("dial-timeout-not-armed|DialAsyncTimeout(%v) returned with the connect in progress; callbacks so far %d, armed timers %v (expected exactly the dial timeout)", dialTimeout, calls, vtime.ArmedNames())
+			return false
+		}
+		vtime.FireNext()
+		w.counters["timers_fired"]++
+		w.counters["dial_timers_fired"]++
+		vsched.WaitIdle()
+		w.tick()
+		if calls != 1 || cbConn == nil || !errors.Is(cbErr, nbio.ErrDialTimeout) {
+			w.failf("dial-timeout-not-reported|the dial timeout fired at %s; callbacks %d, error %v (the callback itself is judged by C03)", rel(vtime.VNow()), calls, cbErr)
+			return false
+		}
+		w.conn = cbConn
+		w.peer = vsys.Dials()[0].Peer()
+		if closed, _ := w.conn.IsClosed(); !closed {
+			w.failf("dial-timeout-left-connection-open|the dial callback reported %v but the connection is not closed", cbErr)
+			return false
+		}
+		for dir := 0; dir < 2; dir++ {
+			w.dl[dir] = deadline{state: dlNone, via: "the dial timed out at " + rel(vtime.VNow())}
+		}
+		if n := vtime.Armed(); n != 0 {
+			w.failf("timer-armed-after-close dir=write via=dial-timeout|the dial timed out and the connection is closed, but %d timer(s) are still armed: %v", n, vtime.ArmedNames())
+			return false
+		}
+		return true
+	}
+	if calls != 1 || cbErr != nil || cbConn == nil {
+		w.failf("dial-not-completed origin=%s|the connect was accepted by the network but the dial callback ran %d times (error %v); judged in detail by C03", w.origin, calls, cbErr)
+		return false
+	}
+	w.conn, w.dialDone, w.dialAt = cbConn, true, vtime.VNow()
+	if w.peer == nil {
+		w.peer = vsys.Dials()[0].Peer()
+	}
+	switch {
+	case w.origin != "dialT":
+	case reportedAtReturn:
+		// the connect completed (and cleared nothing) before DialAsyncTimeout got to arm its timeout
+		w.counters["connect_reported_before_dial_returned"]++
+	case armedAtReturn == 1:
+		w.counters["dial_timers_cleared_by_connect"]++
+	}
+	if n := vtime.Armed(); n != 0 {
+		ts := snapTimers(w.conn)
+		slot := "none"
+		for dir := 0; dir < 2; dir++ {
+			if ts.t[dir].armed {
+				slot = dirName[dir] + " timer, armed for " + rel(ts.t[dir].when)
+			}
+		}
+		how := "the connect completed after DialAsyncTimeout had returned"
+		if reportedAtReturn {
+			how = "the connect completed and was reported while DialAsyncTimeout was still running"
+		}
+		w.failf("stale-dial-timer origin=%s|the dial reported success (%s), the connection is established and idle, yet %d timer(s) are armed: %v (connection slot: %s); it would close the established connection with the dial timeout %v after the dial", w.origin, how, n, vtime.ArmedNames(), slot, dialTimeout)
+		return false
+	}
+	w.counters["dialed_connections"]++
+	return true
+}
+
 // threadA runs the operation list.
 func (w *world) threadA(ops []op) {
 	var prev *opRun
@@ -691,15 +840,26 @@ func body(c cfg) func() {
 			vsched.Fail("harness|engine start: %v", err)
 			return
 		}
-		w.conn, w.peer = ekit.Stream(false, K, 64)
-		if _, err := g.AddConn(w.conn); err != nil {
-			vsched.Fail("harness|AddConn: %v", err)
-			return
-		}
-		vsched.WaitIdle()
-		if vtime.Armed() != 0 {
-			vsched.Fail("harness|timers armed before the first operation: %v", vtime.ArmedNames())
-			return
+		w.origin = "add"
+		if c.origin != "" {
+			w.origin = c.origin
+			if !w.dial(g) {
+				for _, f := range w.fails {
+					vsched.Fail("%s", f)
+				}
+				return
+			}
+		} else {
+			w.conn, w.peer = ekit.Stream(false, K, 64)
+			if _, err := g.AddConn(w.conn); err != nil {
+				vsched.Fail("harness|AddConn: %v", err)
+				return
+			}
+			vsched.WaitIdle()
+			if vtime.Armed() != 0 {
+				vsched.Fail("harness|timers armed before the first operation: %v", vtime.ArmedNames())
+				return
+			}
 		}
 		vsched.GoNamed("A", func() { w.threadA(c.ops) })
 		vsched.GoNamed("clock", w.clock)
@@ -756,7 +916,7 @@ func check(r *vsched.Result) string {
 		}
 	}
 	for _, b := range r.Blocked {
-		if b.Name == "main" || b.Name == "A" || strings.HasPrefix(b.Name, "timer:") || b.Name == "sleeper" || strings.HasPrefix(b.Name, "client") {
+		if b.Name == "main" || b.Name == "A" || b.Name == "network" || strings.HasPrefix(b.Name, "timer:") || b.Name == "sleeper" || strings.HasPrefix(b.Name, "client") {
 			return fmt.Sprintf("stuck|thread %s blocked at the end (%s)", b.Name, b.Why)
 		}
 	}
@@ -992,6 +1152,80 @@ func build(tier string) []*vkit.Scenario {
 				p++
 			}
 			add(cfg{mode: m, ops: l, p: p}, 400)
+		}
+	}
+	// origin of the connection: the lists above run on a connection that was added/accepted.
+	// DialAsyncTimeout keeps the dial timeout in the connection's write-timer slot (with
+	// ErrDialTimeout as its error) and clears it through SetWriteDeadline(zero) when the connect
+	// completes, so a dialed connection starts its life with a used slot. A representative
+	// subset of the lists - one expiry per kind of deadline, set-clear-set, renewal, a Write that
+	// empties / does not empty the backlog, Close - runs on every origin.
+	R, W, D := func(d int) op { return op{'R', d} }, func(d int) op { return op{'W', d} }, func(d int) op { return op{'D', d} }
+	wr, P, Z, C := func(n int) op { return op{'w', n} }, op{'P', 0}, op{'Z', 3}, op{'C', 0}
+	type dl struct {
+		ops     []op
+		origins []string
+		quick   bool
+	}
+	both, onlyT := []string{"dial", "dialT"}, []string{"dialT"}
+	dlists := []dl{
+		{[]op{W(5)}, both, true}, {[]op{R(5)}, both, true}, {[]op{D(5)}, both, true},
+		{[]op{W(5), W(0), W(9)}, onlyT, true}, {[]op{R(5), R(0), R(9)}, onlyT, false}, {[]op{D(5), D(0), D(9)}, onlyT, true},
+		{[]op{W(5), D(0), W(9)}, onlyT, false}, {[]op{W(0), W(5)}, onlyT, true},
+		{[]op{W(5), W(9)}, onlyT, true}, {[]op{W(9), W(5)}, onlyT, false}, {[]op{W(5), Z, W(5)}, onlyT, true}, {[]op{D(5), R(9)}, onlyT, false},
+		{[]op{W(5), wr(1)}, both, true}, {[]op{D(5), wr(1)}, onlyT, false}, {[]op{wr(1), W(5)}, onlyT, true},
+		{[]op{wr(5), W(5)}, both, true}, {[]op{W(5), wr(5), P}, both, true}, {[]op{wr(5), W(5), P}, onlyT, false}, {[]op{W(5), wr(5), wr(1)}, onlyT, false},
+		{[]op{W(5), C}, onlyT, true}, {[]op{D(5), C, R(5)}, onlyT, false}, {[]op{R(5), W(9)}, onlyT, true},
+	}
+	for _, x := range dlists {
+		if !x.quick && !thorough {
+			continue
+		}
+		l := x.ops
+		nD := 0
+		for _, o := range l {
+			if o.kind == 'D' {
+				nD++
+			}
+		}
+		// bounds as for the added connection; one preemption is what it takes to let the connect
+		// complete inside DialAsyncTimeout
+		p := 0
+		switch {
+		case len(l) <= 2 && nD <= 1:
+			p = 2
+		case len(l) <= 2, len(l) == 3 && nD <= 1:
+			p = 1
+		}
+		if thorough && len(l) == 3 && nD <= 1 {
+			p = 2
+		}
+		modes := []ekit.Mode{ekit.LT}
+		if hasBacklog(l) {
+			modes = ekit.Modes
+		}
+		origins := x.origins
+		if thorough && len(l) <= 2 {
+			origins = append(append([]string(nil), origins...), "dialTimm")
+		}
+		for _, o := range origins {
+			for _, m := range modes {
+				if !thorough && m == ekit.ONESHOT && o == "dial" {
+					continue
+				}
+				add(cfg{mode: m, origin: o, ops: l, p: p}, 600*float64(len(l)))
+			}
+		}
+	}
+	// the dial timeout fires first: the operations find a closed connection (nothing may be armed,
+	// nothing may fire later)
+	for _, l := range [][]op{{W(5)}, {R(5)}, {D(5)}, {D(5), D(0), W(9)}} {
+		modes := []ekit.Mode{ekit.LT}
+		if thorough {
+			modes = ekit.Modes
+		}
+		for _, m := range modes {
+			add(cfg{mode: m, origin: "dialTfired", ops: l, p: 2}, 200)
 		}
 	}
 	all = append(all, keepaliveScenarios(tier)...)
